@@ -169,7 +169,7 @@ def _case(draw, tier):
                                  allow_default=False))]
     case["model"] = draw(st.sampled_from(MODELS))
     case["logits"] = draw(st.sampled_from([False, False, False, True]))
-    case["labels"] = draw(st.sampled_from(["numeric"] * 8))
+    case["labels"] = draw(st.sampled_from(["numeric"] * 7 + ["string"]))
   return case
 
 
